@@ -230,6 +230,109 @@ def ref_bins(cp, tvals, auto_bin_max=64):
 
 
 # ------------------------------------------------------------------------------------------------
+# interval-based reference (types too wide to enumerate): a value set is a sorted list of disjoint [lo, hi] pairs
+def iv_norm(items):
+    ivs = []
+    for it in items:
+        if isinstance(it, dict):
+            it = it["t"]
+        if isinstance(it, (list, tuple)):
+            if it[0] <= it[1]:
+                ivs.append([it[0], it[1]])
+        else:
+            ivs.append([it, it])
+    ivs.sort()
+    out = []
+    for lo, hi in ivs:
+        if out and lo <= out[-1][1] + 1:
+            out[-1][1] = max(out[-1][1], hi)
+        else:
+            out.append([lo, hi])
+    return out
+
+
+def iv_sub(a, b):
+    """a minus b (both normalised)"""
+    out = []
+    for lo, hi in a:
+        cur = lo
+        for blo, bhi in b:
+            if bhi < cur or blo > hi:
+                continue
+            if blo > cur:
+                out.append([cur, blo - 1])
+            cur = max(cur, bhi + 1)
+            if cur > hi:
+                break
+        if cur <= hi:
+            out.append([cur, hi])
+    return out
+
+
+def iv_count(a):
+    return sum(hi - lo + 1 for lo, hi in a)
+
+
+def iv_contains(a, v):
+    return any(lo <= v <= hi for lo, hi in a)
+
+
+def iv_take(a, k):
+    """split a into (first k values, rest)"""
+    first, rest = [], []
+    for lo, hi in a:
+        if k <= 0:
+            rest.append([lo, hi])
+        elif hi - lo + 1 <= k:
+            first.append([lo, hi])
+            k -= hi - lo + 1
+        else:
+            first.append([lo, lo + k - 1])
+            rest.append([lo + k, hi])
+            k = 0
+    return first, rest
+
+
+def iv_partition(a, n):
+    """ascending values -> n consecutive equal-size bins, remainder in the last; one bin per value when no count is
+    given or the count is not smaller than the number of values"""
+    tot = iv_count(a)
+    if tot == 0:
+        return []
+    if n is None or n >= tot:
+        return [[[v, v]] for lo, hi in a for v in range(lo, hi + 1)]
+    per = tot // n
+    out = []
+    rest = a
+    for _ in range(n - 1):
+        first, rest = iv_take(rest, per)
+        out.append(first)
+    out.append(rest)
+    return out
+
+
+def ref_bins_iv(cp, trange, auto_bin_max=64):
+    """interval version of ref_bins for integer types: -> (regular, ignore, illegal), each a list of interval lists"""
+    excl = iv_norm([i for b in (cp.get("ignore") or []) + (cp.get("illegal") or []) for i in b["items"]])
+    regular = []
+    if cp.get("bins") is None:
+        regular = iv_partition(iv_sub([list(trange)], excl), auto_bin_max)
+    else:
+        for b in cp["bins"]:
+            vals = iv_sub(iv_norm(b["items"]), excl)
+            if b["kind"] == "bin":
+                if vals:
+                    regular.append(vals)
+            elif b["kind"] == "arr":
+                regular += iv_partition(vals, b.get("n"))
+            else:
+                raise ValueError(b["kind"])
+    ign = [iv_norm(b["items"]) for b in (cp.get("ignore") or [])]
+    ill = [iv_norm(b["items"]) for b in (cp.get("illegal") or [])]
+    return regular, ign, ill
+
+
+# ------------------------------------------------------------------------------------------------
 # observation through the model getters
 def cp_model(cg_obj, name):
     m = cg_obj.get_model()
